@@ -6,10 +6,10 @@ import numpy as np
 import common as C
 
 PID = "C11"
-DRIVER = [("C11", "TfPwaV.Gen.KinF", "KinF.handle"), ("C11d", "TfPwaV.Gen.DalitzF", "DalitzF.handle"), ("C11a", "TfPwaV.Gen.AngleF", "AngleF.handle"), ("C11t", "TfPwaV.Gen.CascadeF", "CascadeF.handle")]
-LEAN_TARGETS = ["TfPwaV.Props.C11", "TfPwaV.Props.C11b", "TfPwaV.Props.C11c", "TfPwaV.Props.C11d", "TfPwaV.Gen.KinF", "TfPwaV.Gen.DalitzF", "TfPwaV.Gen.AngleF", "TfPwaV.Gen.CascadeF"]
-PROP_MODULES = ["TfPwaV.Props.C11", "TfPwaV.Props.C11b", "TfPwaV.Props.C11c", "TfPwaV.Props.C11d"]
-ALL_MODULES = ["TfPwaV.Proofs.Kin", "TfPwaV.Proofs.Dalitz", "TfPwaV.Props.C11", "TfPwaV.Props.C11b", "TfPwaV.Proofs.ScalarR", "TfPwaV.Proofs.Angle", "TfPwaV.Props.C11c", "TfPwaV.Proofs.CascadeAngle", "TfPwaV.Proofs.Cascade", "TfPwaV.Proofs.CascadeTree", "TfPwaV.Props.C11d"]
+DRIVER = [("C11", "TfPwaV.Gen.KinF", "KinF.handle"), ("C11d", "TfPwaV.Gen.DalitzF", "DalitzF.handle"), ("C11a", "TfPwaV.Gen.AngleF", "AngleF.handle"), ("C11t", "TfPwaV.Gen.CascadeF", "CascadeF.handle"), ("C11l", "TfPwaV.Gen.CascadeLF", "CascadeLF.handle"), ("C11s", "TfPwaV.Model.ChainL", "ChainL.handle")]
+LEAN_TARGETS = ["TfPwaV.Props.C11", "TfPwaV.Props.C11b", "TfPwaV.Props.C11c", "TfPwaV.Props.C11d", "TfPwaV.Props.C11e", "TfPwaV.Gen.KinF", "TfPwaV.Gen.DalitzF", "TfPwaV.Gen.AngleF", "TfPwaV.Gen.CascadeF", "TfPwaV.Gen.CascadeLF"]
+PROP_MODULES = ["TfPwaV.Props.C11", "TfPwaV.Props.C11b", "TfPwaV.Props.C11c", "TfPwaV.Props.C11d", "TfPwaV.Props.C11e"]
+ALL_MODULES = ["TfPwaV.Proofs.Kin", "TfPwaV.Proofs.Dalitz", "TfPwaV.Props.C11", "TfPwaV.Props.C11b", "TfPwaV.Proofs.ScalarR", "TfPwaV.Proofs.Angle", "TfPwaV.Props.C11c", "TfPwaV.Proofs.CascadeAngle", "TfPwaV.Proofs.Cascade", "TfPwaV.Proofs.CascadeTree", "TfPwaV.Props.C11d", "TfPwaV.Model.ChainL", "TfPwaV.Proofs.ChainL", "TfPwaV.Proofs.CascadeL", "TfPwaV.Props.C11e"]
 ASSUMPTIONS = [
     "IEEE double evaluation of the same formula text (Lean Float vs TensorFlow) agrees to 1e-11 relative to the scale gamma^2*|p|; cases with gamma > 1e4 are counted as ill-conditioned and skipped",
     "theorems hold over the reals in the regular branch eps < |v|^2 < 1; the guard branch (|v|^2 <= 1e-14) has its own statements",
@@ -18,6 +18,10 @@ ASSUMPTIONS = [
     "helicity-angle CASCADE round trip is proved for every decay tree (Props/C11d.lean: cascade_boost_undo, cascade_angles, cascade_roundtrip over the model templates/Cascade.lean.in = create_rotate_p_decay + infer_momentum/add_mass/cal_chain_boost/cal_helicity_angle/find_variable) under hypotheses that mirror the code's guards: every decay above threshold (m > m1+m2, final masses >= 0), every decaying daughter's velocity in the regular branch of boost (P^2/(m^2+P^2) > 1e-14), -1 < cos(theta) < 1, -pi < phi < pi, and the cross_unit guards s >= 1e-14, s*P*sin(theta) >= 1e-14 with s = length of the un-normalised z-axis handed down (1 at the top, the mother's break-up momentum below); phi = pi is excluded and has its own statement (alpha_at_pi: the code returns -pi)",
     "the cascade model is tied to the code by correspondence of its Float instance with HelicityAngle.build_data (final momenta, tol 1e-10 relative to the top mass) and cal_angle (all masses, alpha/beta of BOTH daughters of every decay, tol 1e-9 scaled by the smallest sin^2(theta) of the chain) on all 3- and 4-body and seeded 5-body topologies; model simplifications: dictionaries keyed by particles become trees of the same shape, infer_momentum's flat reduce_sum is a nested sum (equal over the reals, rounding-different in floats), floormod is x - y*floor(x/y); not in the model: DecayChain bookkeeping (standard_topology / topology_map, depth_first order), batching, the SU2 r_matrix/b_matrix and aligned angles computed alongside",
     "the cascade round trip is additionally validated end-to-end on the implementation (search_cascade: every topology with 3..5 final particles on seeded masses/angles, tolerance 1e-6)",
+    "DecayChain bookkeeping of HelicityAngle (Props/C11e.lean over Model/ChainL.lean + templates/CascadeL.lean.in): a chain is the list of its decays (numbered particles) in listing order; modelled as the code does it: build_data files costheta[j]/phi[j] under the j-th listed decay, create_rotate_p_decay walks depth_first() (node_map = dict comprehension by mother, last wins; recursion bounded by len(chain)+1), find_variable reads the angles back by decay in listing order (standard_topology() keeps the listing order); cascade_roundtrip_listed assumes that depth_first() reaches every listed decay, cascade_roundtrip_any_listing discharges that for every labelled tree with pairwise different particle names and every permutation of its decays; the hypotheses on masses/angles are those of cascade_roundtrip for the assembled tree",
+    "mass_range_sound_complete: chain TreeLike (every particle decays at most once, is produced at most once, daughters of a decay differ) and every decay touches an intermediate particle (>= 3 finals); 'allowed' = every decay AT OR above threshold (closed ranges, as get_mass_range returns them); the masses get_mass_range reads are the particles' nominal get_mass() values; mass_linspace_inside assumes hi - lo >= 2e-10 and numpy.linspace(a, b, N) = arange(N)*((b-a)/(N-1)) + a with the last point set to b (compared with numpy to 2 ulp on every run)",
+    "get_phsp_factor_eq_c10_weight: get_relative_p = get_p needs masses >= 0 and mother >= |m1 - m2|; the C10 side is templates/Phsp.lean.in with r32 = id (the tree with the get_p float64 fix, as /repo is); m_wtMax != 0",
+    "not in the Lean model (validated by the correspondence/search only): standard_topology()/topology_map() name matching through sorted_table (the model identifies a standard-topology particle with the original one), particle identity by name (str(i.core) == name), tensors/batching, generate_p_mass(random=True), HelicityAngle1.generate_p/generate_p2/generate_p_mass (only HelicityAngle1.get_phsp_factor is modelled)",
 ]
 
 
@@ -567,16 +571,20 @@ def correspond_cascade(ctx, res):
 
 
 def correspond(ctx, res):
+    import c11_l
     correspond_boost(ctx, res)
     correspond_dalitz(ctx, res)
     correspond_angle(ctx, res)
     correspond_cascade(ctx, res)
+    c11_l.correspond(ctx, res)
 
 
 def search(ctx, res):
+    import c11_l
     search_boost(ctx, res)
     search_dalitz(ctx, res)
     search_cascade(ctx, res)
+    c11_l.search(ctx, res)
 
 
 def replay(ctx, payload):
@@ -629,6 +637,9 @@ def replay(ctx, payload):
         errs, _ = _roundtrip_chain(ch, finals, random.Random(1), 8)
         print(str(ch), {k: v for k, v in errs.items() if v > 1e-6})
         bad = any(not v < 1e-6 for v in errs.values())
+    elif op in ("listed", "range", "c10"):
+        import c11_l
+        bad = c11_l.replay(r)
     else:
         print("replay file names a broken obligation, not an input:", json_dumps(payload.get("broken")))
         return 1
@@ -642,7 +653,7 @@ def json_dumps(x):
 
 
 MANIFEST = {
-    "text": "Lean theorems over the reals for ALL four-vectors and all velocities in the regular branch eps<|v|^2<1: boosts preserve Minkowski products and masses (boost_minkowski, boost_mass), boost by v then -v is the identity (boost_inverse), rest_vector then boost back is the identity, boost matrix = vector boost (all inputs), rotations preserve products; the eps-guard branch is stated separately; momenta built from Dalitz variables are on shell, sum to the parent at rest and reproduce (m12, m23) everywhere inside the Dalitz region (dalitz_reproduces, certificate-checked); for EVERY decay tree (sequential or branching, any number of final particles) building the final momenta from masses and helicity angles and extracting masses and angles again returns the inputs (cascade_roundtrip, with cascade_boost_undo and cascade_angles), for cos(theta) in (-1,1), phi in (-pi,pi), decays above threshold and outside the code's 1e-14 guards. The same definition text is instantiated at Float and compared with tf_pwa.angle.LorentzVector.",
-    "note": "Model = templates/Kin.lean.in instantiated at R (proofs) and Float (execution); tie = differential run against LorentzVector.boost/rest_vector/boost_matrix/Dot/M on seeded structured vectors (tol 1e-11 relative to gamma^2|p|, gamma>1e4 skipped). + Dalitz.generate_p vs templates/Dalitz.lean.in (a line-by-line transcription of _generate_fun0). Float rounding itself is not verified. Helicity angles: single vertex (angle_step_roundtrip, Props/C11c.lean; model templates/Angle.lean.in compared with EulerAngle.angle_zx_z_getx / Vector3.cross_unit) and the whole CASCADE (Props/C11d.lean over templates/Cascade.lean.in, by structural induction over an arbitrary binary decay tree): cascade_boost_undo (masses and the nested rest_vector boosts of cal_chain_boost return exactly the rest-frame momenta create_rotate_p_decay started from), daughter_frames (the axes handed to both daughters, incl. [x,-y,-z], are orthonormal right-handed frames), cascade_angles (cal_helicity_angle returns (phi, theta) for outs[0] and (phi-pi, pi-theta) for outs[1], range shift with bias -pi/-2pi included), cascade_roundtrip (find_variable(cal_angle(build_data(t))) = t), hypotheses = the code's own guards + thresholds + open angle ranges; phi = pi stated separately (alpha_at_pi). The Float instance of the cascade model is compared with HelicityAngle.build_data / cal_angle (momenta, masses, both daughters' angles) on all 3-/4-body and seeded 5-body topologies. Validated only (not in the Lean model): DecayChain bookkeeping (standard_topology/topology_map, decay ordering) and float rounding; the end-to-end round trip is still run on the implementation for every chain topology with 3..5 final particles (all in the thorough tier, all 3- and 4-body plus a seeded 30% of the 105 five-body chains in the quick tier).",
-    "technique": "Lean 4 proof over the reals (linear_combination certificates) of one template instantiated at Float for differential correspondence with the implementation",
+    "text": "Lean theorems over the reals for ALL four-vectors and all velocities in the regular branch eps<|v|^2<1: boosts preserve Minkowski products and masses (boost_minkowski, boost_mass), boost by v then -v is the identity (boost_inverse), rest_vector then boost back is the identity, boost matrix = vector boost (all inputs), rotations preserve products; the eps-guard branch is stated separately; momenta built from Dalitz variables are on shell, sum to the parent at rest and reproduce (m12, m23) everywhere inside the Dalitz region (dalitz_reproduces, certificate-checked); for EVERY decay tree (sequential or branching, any number of final particles) building the final momenta from masses and helicity angles and extracting masses and angles again returns the inputs (cascade_roundtrip, with cascade_boost_undo and cascade_angles), for cos(theta) in (-1,1), phi in (-pi,pi), decays above threshold and outside the code's 1e-14 guards -- and this holds for EVERY LISTING ORDER of the decays of the chain: the positional costheta[j]/phi[j] lists come back position by position (cascade_roundtrip_listed for any list of decays whose depth-first walk reaches every listed decay; cascade_roundtrip_any_listing for every labelled tree and every permutation of its decays). HelicityAngle.get_mass_range is sound and complete for every tree-like chain in any listing order and all masses (mass_range_sound_complete: every decay at/above threshold iff every intermediate mass is in [sum of its daughters, mother - sibling]); mass_linspace returns N points strictly inside the range (mass_linspace_inside); eval_phsp_factor/get_phsp_factor do not depend on the listing order (phsp_factor_perm) and equal PhaseSpaceGenerator.get_weight(importances=False)*m_wtMax of C10 on the sequential cascade (get_phsp_factor_eq_c10_weight, via get_relative_p = get_p). The same definition text is instantiated at Float and compared with tf_pwa.angle.LorentzVector / HelicityAngle.",
+    "note": "Model = templates/Kin.lean.in instantiated at R (proofs) and Float (execution); tie = differential run against LorentzVector.boost/rest_vector/boost_matrix/Dot/M on seeded structured vectors (tol 1e-11 relative to gamma^2|p|, gamma>1e4 skipped). + Dalitz.generate_p vs templates/Dalitz.lean.in (a line-by-line transcription of _generate_fun0). Float rounding itself is not verified. Helicity angles: single vertex (angle_step_roundtrip, Props/C11c.lean; model templates/Angle.lean.in compared with EulerAngle.angle_zx_z_getx / Vector3.cross_unit) and the whole CASCADE (Props/C11d.lean over templates/Cascade.lean.in, by structural induction over an arbitrary binary decay tree): cascade_boost_undo (masses and the nested rest_vector boosts of cal_chain_boost return exactly the rest-frame momenta create_rotate_p_decay started from), daughter_frames (the axes handed to both daughters, incl. [x,-y,-z], are orthonormal right-handed frames), cascade_angles (cal_helicity_angle returns (phi, theta) for outs[0] and (phi-pi, pi-theta) for outs[1], range shift with bias -pi/-2pi included), cascade_roundtrip (find_variable(cal_angle(build_data(t))) = t), hypotheses = the code's own guards + thresholds + open angle ranges; phi = pi stated separately (alpha_at_pi). The Float instance of the cascade model is compared with HelicityAngle.build_data / cal_angle (momenta, masses, both daughters' angles) on all 3-/4-body and seeded 5-body topologies. BOOKKEEPING (Props/C11e.lean; Model/ChainL.lean scalar-free + templates/CascadeL.lean.in): a chain is the LIST of its decays in listing order; the model assembles the tree the way the code does (build_data: positional angle j -> data[j-th listed decay]; create_rotate_p_decay: depth_first() with node_map by mother; find_variable: positional lists over the listing), and the Float instance is compared with the real HelicityAngle on every run for all 3-/4-body and seeded 5-body topologies in SEEDED LISTING ORDERS (depth-first, reversed, random permutations, swapped daughters; random particle numbering): tops / depth_first order / finals / get_all_particles exactly, build_data momenta 1e-10, find_variable masses and positional cos/phi 1e-9, get_mass_range exactly (None included), mass_linspace to 2 ulp, get_phsp_factor / eval_phsp_factor / HelicityAngle1.get_phsp_factor 1e-12, generate_p_mass 1e-10, the C10 tie (product of get_relative_p over the sequential triples = product of C10's qListAux) 1e-12. Theorems: cascade_roundtrip_listed, cascade_roundtrip_any_listing (depthFirstTop_perm: depth_first() of ANY permutation of the decays of a tree walks that tree), build_data_keys, mass_range_sound_complete, mass_range_value, mass_range_none, mass_linspace_inside, phsp_factor_perm, get_phsp_factor_perm, get_relative_p_eq_get_p, phsp_factor_seq_eq_c10, get_phsp_factor_eq_c10_weight. Search on the implementation: round trip over listing orders (positional), get_mass_range vs an independent threshold oracle just inside/outside both ends, mass_linspace strictly inside and increasing, get_phsp_factor vs a numpy Kallen-function product, eval_phsp_factor of the sequential chain vs PhaseSpaceGenerator.get_weight*m_wtMax. Validated only (not in the Lean model): standard_topology()/topology_map() name matching via sorted_table, particle identity by name, batching/tensors, generate_p_mass(random=True), HelicityAngle1.generate_p*, float rounding, the SU(2) r_matrix/b_matrix computed alongside. Side finding (not a C11 violation; fixes/C11-side-fix_helicity_angle1_float64.diff): HelicityAngle1.get_phsp_factor evaluates get_relative_p on Python floats, which tf.where turns into float32 (relative error ~2e-8 against HelicityAngle.get_phsp_factor on the same chain); the check compares it within a float32 forward-error bound (3e-7 x sum of m0/(m0-m1-m2)) and records the measured deviation. The end-to-end round trip is still run on the implementation for every chain topology with 3..5 final particles (all in the thorough tier, all 3- and 4-body plus a seeded 30% of the 105 five-body chains in the quick tier).",
+    "technique": "Lean 4 proof over the reals (linear_combination certificates, structural induction over decay trees, list/permutation lemmas for the chain bookkeeping) of one template instantiated at Float for differential correspondence with the implementation",
 }
